@@ -350,6 +350,14 @@ def bind_execute(case):
             pos[0] = RecPool()
         tname = target_name(case["sig"], case["seed"])
         kws = {(tname if k == "target" and tname == "pool" else k): ("kw", idx, k) for k in c["kws"]}
+        if c["pool"] and pos:
+            # the same call shape (as many positionals, the same keywords) was used before with
+            # harmless values: what is decided about THIS call depends on its arguments alone
+            warm = [("v", idx, j) for j in range(c["npos"])]
+            try:
+                (cls.s if tpl is None else tpl)(*warm, **kws)
+            except Exception:  # noqa
+                pass
         try:
             tpl = cls.s(*pos, **kws) if tpl is None else tpl(*pos, **kws)
         except TypeError:
